@@ -2061,3 +2061,7 @@ M("c17-check-function-logger-built-on-a-logger", "C17", "R1.derived-logger-carri
   "                        execution_state=self.state,\n                        op_id=self.operation_identifier,\n                        attempt=attempt,",
   "                        execution_state=self.context_logger,\n                        op_id=self.operation_identifier,\n                        attempt=attempt,",
   desc="mutscan 5: one attribute of self taken for another")
+M("c06-pool-error-stored-in-the-wrong-slot", "C06", "R4", "concurrency/executor.py",
+  "                    # started): nobody would ever run it, so end the operation with that error\n                    self._fatal_exception = e",
+  "                    # started): nobody would ever run it, so end the operation with that error\n                    self.executables = e",
+  desc="mutscan 5: one attribute of self taken for another - execute() is woken and finds no error")
